@@ -109,6 +109,9 @@ def run(tier):
     rep.cov["schedules"] = sched
     depth = 6 if tier == "thorough" else 4
     tot = monitors.run_models(rep, models(tier), depth, dedup_depth_plain=(depth - 2), time_cap=900 if tier == "thorough" else 100)
+    # the same monitors on SCTP connections (accept / sctp_send / close branches of the node)
+    t_sctp = monitors.run_models(rep, monitors.sctp_copies(models(tier), ('inbound-ready', 'inbound-unidentified', 'outbound')), depth - 1, time_cap=400 if tier == "thorough" else 25)
+    monitors.merge_tot(tot, t_sctp)
     rep.cov.update({"states": tot["states"], "transitions": tot["transitions"], "traces_validated_against_impl": tot["transitions"] + tot["plain_transitions"],
                     "max_depth": tot["max_depth"], "states_without_dedup": tot["plain_states"],
                     "explanation": "explicit-state BFS over event histories; every transition executes the real node to quiescence; "
